@@ -31,6 +31,7 @@ func isChunkPut(c *ssa.CallCommon) bool {
 }
 
 func c06(r *core.Run) {
+	c06DecryptCopies(r)
 	// the retrieval-side validator itself: length window, hash comparison, hashing order
 	// (the BMT hasher ignores input past its capacity, so the window is part of validity)
 	cacRules(r, "C06.V-")
